@@ -440,7 +440,11 @@ func (g *gen) qClaims(mode string, p int, f string, attr string) {
 	// (interface.go: "may be appended in any order"), date order for the corpus
 	want := map[int]bool{}
 	for _, c := range g.claims {
-		if c.p == p && signerOK(f, c.s) && (attr == "" || c.attr == attr) && !g.specDeleted("c"+strconv.Itoa(c.id)) {
+		if c.p == p && signerOK(f, c.s) && (attr == "" || c.attr == attr) {
+			if g.specDeleted("c" + strconv.Itoa(c.id)) {
+				g.r.Hit("mechanism:appendclaims-must-skip-deleted:" + mode)
+				continue
+			}
 			want[c.id] = true
 		}
 	}
